@@ -4,7 +4,7 @@ import json
 from fractions import Fraction
 import numpy as np
 from harness import votelib as V, gslib
-from harness.common import pmap, lean_query, guard, fr, to_np, optn, safe_judge
+from harness.common import pmap, lean_query, guard, fr, to_np, optn, safe_judge, persist, persist_rule
 from harness.c01 import chunks
 
 LEVEL = "proof"
@@ -34,7 +34,7 @@ def impl_rsd(case):
             np.random.seed(it["seed"])
             np.random.shuffle = rec
             try:
-                a = RandomSerialDictatorship(zero_indexed=it["zero"]).scf(StrictProfile.of(P))
+                a = persist_rule(("rsd", it["zero"]), lambda: RandomSerialDictatorship(zero_indexed=it["zero"])).scf(persist("rsdP", P, StrictProfile.of))
             finally:
                 np.random.shuffle = orig
             out.append({"alloc": [None if np.isnan(x) else int(x) for x in a], "orders": orders})
@@ -63,7 +63,7 @@ def impl_eat(case):
             P = to_np(it["P"])
             if it["dtype"] != "float64":
                 P = P.astype(it["dtype"])
-            prof = StrictProfile.of(P)
+            prof = persist("eatP", P, StrictProfile.of)
             speeds = np.array([float(Fraction(s)) for s in it["speeds"]])
             se = rule(False, it["zero"])
             if it.get("pre_speeds") and not it["ps"]:
@@ -275,9 +275,9 @@ def run(R):
     for i, (it, r) in enumerate(zip(rsd_items, flat)):
         judge_rsd(R, it, r, ans.get(i, "err no-order"))
     eat_items = []
-    cnt2 = 3000 if R.thorough else 110
+    cnt2 = 3000 if R.thorough else 400
     for t in range(cnt2):
-        n = R.rng.randint(1, 5 if not R.thorough else 6)
+        n = R.rng.randint(1, 6)
         if R.rng.random() < 0.2 and n >= 2:
             P = gslib.rand_profile(R.rng, n, n, 0.3)
             if all(v is None for row in P for v in row):
